@@ -219,6 +219,40 @@ void vf_harness(void)
 
 
 
+def unit_getlambda():
+    """the kriging weights can be obtained from the calculator in its ordinary (primal) form, and are refused in dual form"""
+    from tools.vf import Fn, Unit
+    pre = """
+#define nullptr 0
+#define messerr(...) ((void)0)
+int nondet_int(); bool nondet_bool();
+struct MatrixRectangular { int id; };
+class KrigingCalcul { public: bool _flagDual, _flagSK; MatrixRectangular* _LambdaSK; MatrixRectangular* _LambdaUK; int g_sk_ok, g_uk_ok;
+  bool _validForDual() const;
+  int _needLambdaSK() { g_sk_ok = nondet_bool(); return g_sk_ok ? 0 : 1; } int _needLambdaUK() { g_uk_ok = nondet_bool(); return g_uk_ok ? 0 : 1; }
+  const MatrixRectangular* getLambda(); };
+"""
+    fns = [Fn("KrigingCalcul::_validForDual", "src/Estimation/KrigingCalcul.cpp", r"^bool KrigingCalcul::_validForDual\(\) const\s*$"),
+           Fn("KrigingCalcul::getLambda", "src/Estimation/KrigingCalcul.cpp", r"^const MatrixRectangular\* KrigingCalcul::getLambda\(\)\s*$")]
+    h = """
+void vf_harness()
+{
+  KrigingCalcul K; MatrixRectangular sk, uk; sk.id = 1; uk.id = 2; K._LambdaSK = &sk; K._LambdaUK = &uk; K._flagDual = nondet_bool(); K._flagSK = nondet_bool(); K.g_sk_ok = 0; K.g_uk_ok = 0;
+  const MatrixRectangular* l = K.getLambda();
+  if (K._flagDual) __CPROVER_assert(l == 0, "in dual form the weights are not available");
+  else if (K._flagSK) __CPROVER_assert((l != 0) == (K.g_sk_ok != 0) && (l == 0 || l->id == 1), "primal simple kriging: the weights are returned whenever they could be computed");
+  else __CPROVER_assert((l != 0) == (K.g_uk_ok != 0) && (l == 0 || l->id == 2), "primal universal kriging: the weights are returned whenever they could be computed");
+  VF_REACH();
+}
+"""
+    return Unit("C04.KrigingCalcul.getLambda", fns, mode="cpp", prelude=pre, harness=h, unwind=2, checks=[], backends=("minisat", "cadical"), timeout=300,
+                claim=("KrigingCalcul::getLambda (with the real _validForDual): in primal form the weights of simple / universal kriging are returned whenever their "
+                       "computation succeeds, in dual form they are refused"),
+                assumptions=["Route X; the two weight computations are stubs that may fail"],
+                canaries=[{"fn": "KrigingCalcul::getLambda", "rx": r"return _LambdaUK;", "rp": "return _LambdaSK;", "expect": r"assertion"}])
+
+
+
 def units(tier):
     nmax = 6 if tier == "quick" else 10
     out = []
@@ -230,6 +264,7 @@ def units(tier):
     out.append(unit_xvalid_unique())
     out.append(unit_zstar_mean())
     out.append(unit_lhs_collocated())
+    out.append(unit_getlambda())
     return out
 
 
